@@ -167,15 +167,13 @@ Proof.
   match goal with |- eval _ _ ?T w = ?rhs => let e := eval unfold no_env_res in no_env_res in let t := reify_t (res (option Z)) w e rhs in unify T t end.
   reflexivity.
 Defined.
-Theorem dec_thumb32_ldb_table w : 0 <= w < 2 ^ 32 -> in_domains w rt_not_pc ->
+Theorem dec_thumb32_ldb_table w : 0 <= w < 2 ^ 32 ->
   dec_thumb_load_byte_memory_hints w = eval_leaf no_env_res (Val None) (lookup t32_ldb_table (LRet (Val None)) w) w.
 Proof.
-  intros Hw [s [Hs Hd]]. rewrite <- (proj2_sig ldb_reified w).
-  assert (G : forallb (fun s => check2 32%nat res_eqb t32_ldb_table (LRet (Val None)) 400 (proj1_sig ldb_reified) (cube_of 32%nat s)) rt_not_pc = true)
-    by (vm_compute; reflexivity).
-  rewrite forallb_forall in G. specialize (G s Hs).
-  apply (decode_correct_cube 32%nat res_eqb res_eqb_sound no_env_res (Val None) t32_ldb_table (LRet (Val None)) (proj1_sig ldb_reified) 400 (cube_of 32%nat s) G).
-  apply inc_cube_of; assumption.
+  intros Hw. rewrite <- (proj2_sig ldb_reified w).
+  apply (decode_correct 32%nat res_eqb res_eqb_sound no_env_res (Val None) t32_ldb_table (LRet (Val None)) (proj1_sig ldb_reified) 400).
+  - vm_compute. reflexivity.
+  - exact Hw.
 Qed.
 
 Lemma pas_reified : { t : tree (option Z) | forall w, eval no_env None t w = dec_thumb_parallel_addition_and_subtraction_signed w }.
